@@ -112,7 +112,7 @@ func checkArith(c *an.Ctx, id string, fns []*ssa.Function, kinds map[string]bool
 		}
 		ff := c.F(fn)
 		for _, v := range an.DischargeArith(ff, nonZero) {
-			if !kinds[v.Site.Kind] {
+			if !kinds[v.Site.Kind] && v.Site.Kind != "sconv" && v.Site.Kind != "uwrap" {
 				continue
 			}
 			n++
@@ -146,6 +146,10 @@ func arithRule(kind string) string {
 		return "an integer division must have a divisor proven non-zero (local guard or validated parameter)"
 	case "conv":
 		return "a signed value converted to unsigned must be proven non-negative"
+	case "uwrap":
+		return "an unsigned sum or product with an operand that may be a constant at the top of the type's range wraps around; the value model reads integers without wrap-around, so such an operation needs the other operand proven zero"
+	case "sconv":
+		return "an integer conversion that can change the value (unsigned to signed, or narrowing) must have its operand proven in range when a decision depends on the result"
 	case "index":
 		return "an index must be proven within bounds"
 	case "slice":
